@@ -3,11 +3,16 @@
 set -e
 cd "$(dirname "$0")"
 export GOFLAGS=-mod=mod GOPROXY=off GOSUMDB=off GOTOOLCHAIN=local CGO_ENABLED=0
+REPO=${VERIF_REPO:-/repo}
 mkdir -p harness/bin evidence replays .work lean/Bio/Generated
-cp /repo/go.sum harness/go.sum
+cp $REPO/go.sum harness/go.sum
+if [ "$REPO" != /repo ]; then   # background sweeps against a snapshot of the repository (never the registered commands)
+  sed "s#=> /repo#=> $REPO#" harness/go.mod > harness/go.alt.mod; cp $REPO/go.sum harness/go.alt.sum
+  export GOFLAGS="-mod=mod -modfile=$(pwd)/harness/go.alt.mod"
+fi
 (cd harness && go build -o bin/tablegen ./cmd/tablegen && go build -o bin/translate ./cmd/translate && go build -o bin/corr ./cmd/corr)
 rm -f lean/Bio/Generated/Tables.lean lean/Bio/Generated/Flag.lean lean/Bio/Generated/Src.lean
-(cd harness && ./bin/tablegen ../lean/Bio/Generated/Tables.lean && ./bin/translate /repo/formats/sam/flag.go ../lean/Bio/Generated/Flag.lean && ./bin/translate -src /repo ../lean/Bio/Generated/Src.lean)
+(cd harness && ./bin/tablegen ../lean/Bio/Generated/Tables.lean && ./bin/translate $REPO/formats/sam/flag.go ../lean/Bio/Generated/Flag.lean && ./bin/translate -src $REPO ../lean/Bio/Generated/Src.lean)
 (cd lean && lake build Bio biodriver)
 # the property modules (some may legitimately fail to build if /repo violates a property; checks report that)
 (cd lean && lake build Bio.Props.All) || true
